@@ -5,28 +5,43 @@ SPEC = dict(
     level="proof",
     harness=dict(pkg_dir="index", run="TestVerifC38$", files=["index/zz_verif_c38_test.go"],
                  n_quick=300, n_thorough=1000),
-    runner=dict(imports=["From ZV Require Import Lib.Base Model.Incremental.", "Require Import Coq.Strings.String."],
-                case_type="c38case", mismatch_fn="c38_mismatches", shard=300),
-    extra_targets=("Generated/HashFields.vo",),
-    rule="four case kinds: HashCase = pairs of option sets (fields enumerated by reflection over index.Options; 0-2 fields flipped, "
-         "sometimes reverted) with Go's verdict GetHash(o1)==GetHash(o2); MergeCase = Repository.MergeMutable on generated records "
+    runner=dict(imports=["From ZV Require Import Lib.Base Model.Incremental Model.HashBytes.", "Require Import Coq.Strings.String."],
+                case_type="c38case", mismatch_fn="c38_mismatches_all", shard=300),
+    extra_targets=("Generated/HashFields.vo", "Model/HashProg.vo", "Model/HashBytes.vo"),
+    rule="five case kinds: ByteCase = the BYTES GetHash hashes: a strconv-only reference encoder on the Go side whose SHA-1 the harness "
+         "compares with the real GetHash(), and whose bytes the Coq byte model (Model/HashBytes.v, strconv.Quote replaced by the observed "
+         "quotations, their assumed shape checked) must reproduce exactly; HashCase = pairs of option sets (fields enumerated by reflection over index.Options; 0-2 fields flipped, "
+         "sometimes reverted; every third pair differs by a REARRANGEMENT of the LargeFiles list — reversed, rotated, swapped, sorted, "
+         "de-duplicated, an element repeated — drawn from a pool of overlapping positive and negated patterns, and has its LanguageMap "
+         "re-inserted in another order) with Go's verdict GetHash(o1)==GetHash(o2), compared with equality of the model's ordered write-token "
+         "lists (every seventh pair is a splice: bytes of the concatenated encoding moved across value boundaries, near misses of "
+         "paths and patterns); MergeCase = Repository.MergeMutable on generated records "
          "(nil/empty/non-empty branches and RawConfig, name/id keys, 0-2 mutations); BuildCase = a real Builder run, the record read "
          "back from shard 0; StateCase = real Options.IndexState against real index directories (simple, compound, compound with "
          "tombstone, truncated shard, feature-version patched) with 0-2 options and 0-2 description fields changed, the metadata "
          "IndexState reads recorded as the model's disk. non-trivial = something was changed between the two sides. "
-         "Oracle: every option of the specification list must change GetHash; end to end, for EVERY value field of Options: build, "
-         "flip the field, IndexState==equal must imply a rebuild has identical canonical contents (fake ctags binaries make the "
-         "ctags options observable).",
+         "Oracle: every option of the specification list must change GetHash; option sets with equal hashes must take the same "
+         "IgnoreSizeMax decision on every probe path and have equal LanguageMaps; equal options hash the same on every call; end to end, "
+         "for EVERY value field of Options and every rearrangement of a list-valued one (base LargeFiles: a file over SizeMax matched by a "
+         "positive and a later negated pattern): build, change the field, IndexState==equal must imply a rebuild has identical canonical "
+         "contents (fake ctags binaries make the ctags options observable).",
     trusted_base=["correspondence harness harness/overlay/index/zz_verif_c38_test.go (generator, canonical index dump, Go oracle, fake ctags)",
-                  "translator/hashfields (go/ast reader of HashOptions()/GetHash()/readVersions/SetDefaults; its output is cross-checked "
-                  "by the HashCase correspondence: equal model hash inputs <-> equal real hashes)",
-                  "GetHash = H(hashed field values) with H injective: SHA-1 collision-freeness and unambiguity of the concatenated "
-                  "%s%t%d%q%t encoding are ASSUMED (Section hypothesis H_inj), sampled by the HashCase correspondence",
+                  "translator/hashfields (go/ast reader of HashOptions()/GetHash()/readVersions/SetDefaults: GetHash is read statement by "
+                  "statement into a hash program — field, format, if-guard, form of every write; any statement or value flow it does not "
+                  "recognise is emitted as FUnknown/GUnknown/unrecognised and fails the obligation hash_prog_ok; its output is cross-checked "
+                  "by the HashCase correspondence: equal model token lists <-> equal real hashes)",
+                  "GetHash = H(ordered list of write tokens (format, values)) with H injective: SHA-1 collision-freeness and unambiguity of "
+                  "the concatenation of the formatted writes are ASSUMED in theorems (1)-(7) (hypothesis H_inj), sampled by the HashCase "
+                  "correspondence; that equal token lists imply equal effective field values (lists in order) is proved, not assumed. "
+                  "C38_skip_sound_bytes_partial proves the unambiguity of the byte encoding too and assumes instead: SHA-1 collision-free, "
+                  "strconv.Quote injective, a double quote inside a quoted body is preceded by a backslash (shape sampled by ByteCase)",
                   "findShard / ReadMetadataPathAlive / JSON metadata round trip are outside the model: IndexState is modelled from the "
                   "metadata it reads; build_record (what a build stores) is tied by BuildCase",
                   "classification of Options fields into content-affecting / not (coq/Props/C38.v, justified field by field); "
                   "gitindex-level options (Submodules, BranchPrefix...) are not modelled"],
-    assumptions=["H_inj: the options hash is injective on tuples of hashed field values (SHA-1 collision-freeness)",
+    assumptions=["H_inj: the options hash is injective on the ordered list of formatted writes GetHash feeds into SHA-1 "
+                 "(SHA-1 collision-freeness + unambiguous concatenation of the %s %t %d %q writes); in C38_skip_sound_bytes_partial: "
+                 "SHA-1 collision-free on the rendered bytes, strconv.Quote injective and escaping every inner double quote with a backslash",
                  "RawConfig[\"repoid\"], when present, is the decimal repository ID (as gitindex/indexserver set it)"],
 )
 
